@@ -144,7 +144,9 @@ class C07(Prop):
             p = gen.payload(rng, thorough=(tier == "thorough"))
             h = hx(p)
             fl = len(gen.frame(p))
-            out.append(Case("enci 3 " + h, "enci", dict(p=h)))
+            # calls after the end: a few, or enough to pass any 8-bit state counter (i8: 120, u8: 248)
+            k = 3 if rng.random() < 0.85 else rng.choice([125, 130, 260, 400])
+            out.append(Case("enci %d %s" % (k, h), "enci" if k == 3 else "enci-long-after-end", dict(p=h)))
             out.append(Case("encb - " + h, "encb-vec", dict(p=h, cap=None)))
             for _ in range(2):
                 c = gen.cap_near(rng, fl)
@@ -397,7 +399,7 @@ class C05(Prop):
         for _ in range(n):
             p = gen.payload(rng, thorough=(tier == "thorough"))
             out.append(Case("rt %s %s" % (rng.choice(["-", "0", "1", "4", "64", "8192"]), hx(p)), "rt"))
-            out.append(Case("enci 2 " + hx(p), "enci"))
+            out.append(Case("enci %d %s" % (2 if rng.random() < 0.85 else rng.choice([125, 130, 260, 400]), hx(p)), "enci"))
             out.append(Case("encb %d %s" % (rng.choice(gen.CAP_MENU), hx(p)), "encb"))
         # long noise runs around the former 16-bit counter limit, followed by a frame
         f = gen.frame(b"\x12\x34\x56\x78")
@@ -1594,11 +1596,26 @@ class C12(ParserProp):
                 for ty in (0, 5, 6, 7):
                     for k in range(max(1, (V.bit_length() + 3) // 4), 13):
                         tl.append(gen.tlf_bytes(ty, V, k))
+        # multi-byte (non-minimal) TLFs of every type with a small value, incl. the reserved multi-byte boolean
+        forced = set()
+        for ty in (0, 4, 5, 6, 7, 1, 2, 3):
+            for k in (2, 3, 4):
+                for ln in (0, 1, 2, 4, 8):
+                    tl.append(gen.tlf_bytes(ty, ln + k if ty != 7 else ln, k))
+                    forced.add(tl[-1])
         for t in tl:
             d = tlf_probe_list(t)
             out.append(Case("parse " + hx(d), "tlf-list", dict(d=d)))
-            if len(t) <= 2 or rng.random() < 0.2:
-                d = tlf_probe_value(t, bytes(rng.getrandbits(8) for _ in range(rng.choice([0, 1, 2, 4, 8, 16, 20]))))
+            if len(t) <= 2 or t in forced or rng.random() < 0.2:
+                # data of exactly the length the nibbles spell (whatever the type bits / reserved bits say), or a random length
+                V = 0
+                for x in t:
+                    V = V * 16 + (x & 0xF)
+                fit = V - len(t)
+                lens = [0, 1, 2, 4, 8, 16, 20]
+                if 0 <= fit <= 64:
+                    lens = [fit] * 10 + lens
+                d = tlf_probe_value(t, bytes(rng.getrandbits(8) for _ in range(rng.choice(lens))))
                 out.append(Case("parse " + hx(d), "tlf-value", dict(d=d)))
         # integers: width x signedness x leading byte x tails
         for ty in (5, 6):
@@ -1726,8 +1743,20 @@ class C10(Prop):
                  "snd (rd_all cap (length (stream_of segs tail) + 2) (rd_new kind (map SByte (stream_of segs tail)))) = "
                  "map to_rd (flat_map (fun gm => seg_results (fst gm) (snd gm)) segs) ++ "
                  "(if 0 <? lenN tail then [RdIoErr EkEof (lenN tail)] else [])"),
-                ("C10_compose", None)]
-    level_text = ("Theorems C10_stream, C10_reader, C10_compose (Coq, closed): for any sequence of framed payloads separated by noise "
+                ("C10_compose", None),
+                ("C10_files",
+                 "forall (cap : cap_t) (kind : skind) (t : target) (segs : list (list N * list N)) (tail : list N) "
+                 "(Fs : list (list message)), kind <> KEh -> segs_ok cap segs -> quiet_tail tail -> "
+                 "Forall2 (fun F gm => ok_in (snd gm) /\\ enc_file F (snd gm)) Fs segs -> "
+                 "map (parse_from t) (snd (rd_all cap (length (stream_of segs tail) + 2) (rd_new kind (map SByte (stream_of segs tail))))) = "
+                 "flat_map (fun Fg : list message * (list N * list N) => "
+                 "(if 0 <? lenN (fst (snd Fg)) then [IDecErr (DiscardedBytes (lenN (fst (snd Fg))))] else []) ++ "
+                 "[match t with TBytes => IBytes (snd (snd Fg)) | TFile => IFile (fst Fg) "
+                 "| TParser => IEvents (firstn (length (snd (snd Fg)) + 2) (map SEvent (flat_map flatten_msg (fst Fg)) ++ "
+                 "repeat SNone (length (snd (snd Fg)) + 2))) end]) (combine Fs segs) ++ "
+                 "(if 0 <? lenN tail then [IIoErr EkEof (lenN tail)] else [])")]
+    level_text = ("Theorems C10_stream, C10_reader, C10_compose, C10_files (Coq, closed; C10_files composes the transport result with C03: "
+                  "payloads that encode files F_i are returned as exactly F_i for every target type): for any sequence of framed payloads separated by noise "
                   "(start sequence only at the end of each noise) and trailing noise, decoder and readers over slice/iterator/io::Read "
                   "report exactly DiscardedBytes(|g_i|), b_i, ..., then IoErr(Eof,|tail|), then None; SmlReader's result for every call "
                   "kind and target is parse_from of the DecoderReader result (bytes / complete::parse / streaming::Parser). Content "
